@@ -85,6 +85,7 @@ def generate(rng, tier: str, index: int) -> dict:
     if cell[0] in ('as4_path', 'as4_aggregator'):
         asn4 = False
     p = base_plan(rng, rng.chance(0.5), asn4, rng.choice(['v4', 'v4', 'mp6', 'both']), cell)
+    p['kind']['nexthop_ext'] = rng.chance(0.3)  # RFC 8950 negotiated for IPv4 unicast: the next-hop length rules of the other families stay
     p['prime'] = rng.chance(0.4) or cell[1] == 'other-width'
     if p['prime'] and rng.chance(0.8):
         p['carrier'] = 'v4'  # the decoder's one-entry attribute cache only covers UPDATEs without MP attributes
@@ -179,7 +180,9 @@ def build(plan: dict):
         raw = mp[idx][1]
         flags, code, val = R.split_attributes(raw)[0]
         if corr == 'nh-len':
-            bad = rng.choice([0, 3, 5, 15, 17, 33, 255])
+            # lengths no family uses, and lengths that are right for another family (4: IPv4, 12: RD + IPv4, 24: RD + IPv6) and
+            # wrong for IPv6 unicast, whose next hop is 16 or 32 bytes whatever else the session negotiated (RFC 8950 included)
+            bad = rng.choice([0, 3, 5, 15, 17, 33, 255, 4, 12, 24, 24])
             val = val[:3] + bytes([bad]) + val[4:]
             detail = f'next hop length {bad}'
         elif corr == 'nlri-truncated':
@@ -268,9 +271,13 @@ def build(plan: dict):
                 detail = f'declared length {len(val) + extra} swallowing {extra} bytes of the next attribute'
             else:
                 blocks.append(blocks.pop(idx))
-                cut = rng.choice([1, 2])
-                blocks[-1] = (target, raw[:cut])
-                detail = f'{cut} byte(s) of attribute header at the end of the block'
+                cut = rng.choice([1, 2, 3, 3])
+                if cut == 3:
+                    # an extended-length header (4 bytes) of which only three are there, the high length byte being 0
+                    blocks[-1] = (target, bytes([(flags | 0x10), code, 0]))
+                else:
+                    blocks[-1] = (target, raw[:cut])
+                detail = f'{cut} byte(s) of {"an extended-length " if cut == 3 else ""}attribute header at the end of the block'
         else:
             blocks[idx] = (target, R.attribute(code, val, flags=flags & 0xEF))
     ordered = [b for _, b in blocks] + [b for _, b in mp]
@@ -302,6 +309,10 @@ def execute(plan: dict) -> dict:
     spec = {'asn': k['peer_as'], 'families': fams, 'asn4': k['asn4']}
     if ap:
         spec['addpath'] = [(a, s, 2) for a, s in ap]
+    if k.get('nexthop_ext'):
+        conf['caps']['nexthop'] = True
+        conf['nexthop'] = ['ipv4 unicast ipv6']
+        spec['nexthop'] = [(1, 1, 2)]
     sp = Speaker(w, 'p0', k['peer_ip'], k['peer_as'], k['peer_ip'], LOCAL, hold=180, caps=speaker_caps(spec))
     ctx = R.Ctx(asn4=k['asn4'], addpath={f: True for f in ap})
     confs = [conf]
